@@ -141,10 +141,18 @@ def gen_api():
     return out.strip()
 
 
+def gen_wf():
+    rc, out = run([sys.executable, os.path.join(VERIF, 'tools/gen_wf.py'), os.path.join(BUILD, 'api.json'),
+                   os.path.join(COQ, 'gen/GenTypes.v'), os.path.join(COQ, 'spec/WfThms.v'), 'BMA.proofs.'], timeout=60)
+    if rc != 0:
+        raise TieBroken('byte-range theorems: ' + (out.strip().splitlines() or ['?'])[-1], out)
+
+
 def gen():
     t = translate()
     s = render_spec()
     a = gen_api()
+    gen_wf()
     sync_coq()
     return t, s + '\n' + a
 
